@@ -517,3 +517,11 @@ CHECKS["C15"]["required_classes"]["all"] += ["traced-frontend-request:sasl", "tr
 
 CHECKS["C08"]["jobs"].append(J("readerstress", VSTORE, "TestC08ReaderStress", {"shards": 1, "n": 3}, {"shards": 2, "n": 60}, rapid=False))
 CHECKS["C08"]["required_classes"]["all"] += ["reader-stress"]
+
+PAMFUZZ_PREBUILD = [{"cmd": ["clang", "-g", "-O1", "-fsanitize=fuzzer,address,undefined", "-fno-sanitize-recover=undefined", "-fno-omit-frame-pointer",
+                             "-I", "{staged}/zz_verif/vpam/c/stubs", "-o", "{bin}/fuzz_pam", "{staged}/pam/pam_whawty.c", "{staged}/zz_verif/vpam/c/fuzz_pam.c", "-lpthread"]}]
+CHECKS["C20"]["prebuild"] = PAM_PREBUILD + PAMFUZZ_PREBUILD
+CHECKS["C20"]["jobs"].append({"name": "libfuzzer", "pkg": VPAM, "run": "NONE", "kind": "exec", "rapid": False, "tiers": ("thorough",),
+    "cmd": ["{bin}/fuzz_pam", "-max_total_time={seconds}", "-seed={seed}", "-print_final_stats=1", "-max_len=700", "-artifact_prefix={replays}/libfuzzer-", "{corpus}"],
+    "seed_corpus": ["010100024f4b", "010100024e4f", "7f7f01014f4b", "0101ffff4f4b", "010100014f", "01010000", "0101000a4f4b206d657373616765"],
+    "quick": {"shards": 1, "seconds": 5}, "thorough": {"shards": 8, "seconds": 120, "timeout": 1200}})
